@@ -48,15 +48,16 @@ def _check_graph(g, cells, pairs, paths, np_seed, sig="C13"):
 
     # nodes_connected
     for u, v in pairs:
-        got = call(f"{sig}:nodes_connected", m.nodes_connected, np.array(u), np.array(v))
+        dt = np.int8 if (u[0] + u[1] + v[0]) % 3 == 0 else np.int64
+        got = call(f"{sig}:nodes_connected", m.nodes_connected, np.array(u, dtype=dt), np.array(v, dtype=dt))
         require(bool(got) == (tuple(v) in a[tuple(u)]), f"{sig}:nodes_connected", f"{u}->{v}: got {bool(got)}; bits={g['cl']} {r}x{c}")
     # neighbours / components
     for k, u in enumerate(cells):
-        arg = np.array(u) if k % 2 == 0 else tuple(u)
+        arg = (np.array(u) if k % 4 == 0 else np.array(u, dtype=np.int8)) if k % 2 == 0 else tuple(u)
         nb = call(f"{sig}:get_coord_neighbors", m.get_coord_neighbors, arg)
         nb = L.as_cells(nb)
         require(len(nb) == len(set(nb)) and set(nb) == set(a[tuple(u)]), f"{sig}:get_coord_neighbors", f"{u}: got {nb}, model {sorted(a[tuple(u)])}; bits={g['cl']} {r}x{c}")
-        comp = call(f"{sig}:component", m.gen_connected_component_from, np.array(u))
+        comp = call(f"{sig}:component", m.gen_connected_component_from, np.array(u, dtype=np.int8 if k % 3 == 1 else np.int64))
         comp = L.as_cells(comp)
         want = M.component(a, tuple(u))
         require(len(comp) == len(set(comp)) and set(comp) == want, f"{sig}:component", f"from {u}: got {len(comp)} cells, model {len(want)}; bits={g['cl']} {r}x{c}")
@@ -84,10 +85,12 @@ def _check_graph(g, cells, pairs, paths, np_seed, sig="C13"):
     LE = M.lattice_edges(r, c)
     if LE:
         edges = np.array([[u, v] for u, v in LE] + [[v, u] for u, v in LE])
-        flags = np.asarray(call(f"{sig}:is_connection", is_connection, edges, M.g_cl(g)))
         want = [frozenset(e) in Eset for e in LE] * 2
-        require(flags.shape == (len(want),) and [bool(x) for x in flags] == want, f"{sig}:is_connection",
-                f"flags differ from model; bits={g['cl']} {r}x{c}")
+        # the library's own edge arrays (lattice_connection_array, what the tokenizers pass in) are int8; callers also pass int64
+        for dt in ((np.int64, np.int8) if max(r, c) <= 127 else (np.int64,)):
+            flags = np.asarray(call(f"{sig}:is_connection", is_connection, edges.astype(dt), M.g_cl(g)))
+            require(flags.shape == (len(want),) and [bool(x) for x in flags] == want, f"{sig}:is_connection",
+                    f"flags differ from model for {np.dtype(dt).name} edges (first at edge {next((edges[k].tolist() for k in range(len(want)) if k < len(flags) and bool(flags[k]) != want[k]), None)}); bits={g['cl']} {r}x{c}")
     # path validation
     for path, eiv in paths:
         arr = np.array(path, dtype=int).reshape(-1, 2)
